@@ -55,6 +55,9 @@ P_FREE = gen.profile(
   act_ball=False,
   p_massless=0.1,
   timestep=(0.00390625, 0.001953125, 0.0078125, 0.002, 0.005),
+  p_poly=0.5,
+  p_actfrcrange=0.3,
+  p_actgravcomp=0.3,
 )
 P_SOFT = gen.profile(
   nbody=(2, 7),
@@ -71,6 +74,8 @@ P_SOFT = gen.profile(
   act_ball=False,
   p_mocap=0.1,
   timestep=(0.00390625, 0.001953125, 0.002),
+  p_poly=0.5,
+  p_actfrcrange=0.3,
 )
 
 REPO_MODELS = [
@@ -219,6 +224,13 @@ def capacity_zero(rec, case, xml, mjm, m, states):
   mjw.step(m, d1)
   if int(mw.npy(d1.nefc).max()) > 0:
     rec.inconcl("model has constraints: njmax=0 would legitimately overflow")
+    return rec.result()
+  v1 = np.array(mw.npy(d1.qvel))
+  if not np.all(np.isfinite(v1)) or float(np.abs(v1).max(initial=0)) > 1e6:
+    # the step itself diverges (e.g. cubic damping on a near-massless dof under explicit RK4 stages): round-off level
+    # differences between the two code paths are amplified without bound, nothing can be judged
+    rec.inconcl("step diverges (|qvel| > 1e6 after one step): not judged")
+    rec.count("cap0:diverging_step_not_judged")
     return rec.result()
   for k in ("qvel", "qpos", "act", "time", "qacc_warmstart"):
     if rec.violations and rec.violations[0]["sig"].startswith("njmax0:velocity_not_integrated"):
